@@ -1055,7 +1055,7 @@ def c07(ctx):
                         "TLC enumerates complete truth tables for widths up to 5 (8 for equal widths); wider operands (to 130 bits) are "
                         "boundary-pattern samples checked relationally with limb arithmetic (BV.tla)",
                         "signed modulo is |x| mod |y| as the shipped vectors fix it; division by zero is unspecified"]
-    runs = [("arith-all", ARITH_OPS, 1, 5 if thorough else 3, '{"max", "max+1", "2max", "2max+3"}' if thorough else '{"max", "max+1", "2max"}', "FALSE")]
+    runs = [("arith-all", ARITH_OPS, 1, 5 if thorough else 3, '{"min", "max", "max+1", "2max", "2max+3"}' if thorough else '{"min", "max", "max+1", "2max"}', "FALSE")]
     runs.append(("arith-eq", '{"add", "sub", "mul", "udiv", "umod", "idiv", "imod", "ilt", "uge", "eq", "hamming"}', 4 if not thorough else 6,
                  6 if not thorough else 8, '{"max"}', "TRUE"))
     allcases = []
